@@ -116,3 +116,29 @@ def fieldsPartitionOk (r : ClassRow) : Bool :=
   (r.dynFields ++ r.staticFields).eraseDups.length == (r.dynFields ++ r.staticFields).length
 
 end Furax
+
+namespace Furax
+open Generated
+
+/-- where `out_structure` comes from for each class: the decorated (square) classes return their
+`in_structure`; block / composite / dual classes compute it from their parts; `IndexOperator` stores it;
+everything else evaluates `mv` abstractly (`jax.eval_shape`) -/
+def outStructureResolutionOk (r : ClassRow) : Bool :=
+  let m := r.method "out_structure"
+  if ["IdentityOperator", "HomothetyOperator", "DiagonalOperator", "DiagonalInverseOperator", "HWPOperator",
+      "QURotationOperator", "SymmetricBandToeplitzOperator", "ToastObservationMatrixOperator"].contains r.name
+  then m == r.method "in_structure"
+  else if ["QURotationTransposeOperator", "AbstractLazyInverseOrthogonalOperator"].contains r.name
+  then m == some "_AbstractLazyDualOperator.in_structure"
+  else if ["TransposeOperator", "InverseOperator", "ReshapeTransposeOperator", "AbstractLazyInverseOperator",
+           "_AbstractLazyDualOperator", "ToastObservationMatrixTransposeOperator"].contains r.name
+  then m == some "_AbstractLazyDualOperator.out_structure"
+  else if r.name == "CompositionOperator" then m == some "CompositionOperator.out_structure"
+  else if r.name == "AdditionOperator" then m == some "AdditionOperator.out_structure"
+  else if r.name == "BlockRowOperator" then m == some "BlockRowOperator.out_structure"
+  else if ["AbstractBlockOperator", "BlockDiagonalOperator", "BlockColumnOperator"].contains r.name
+  then m == some "AbstractBlockOperator.out_structure"
+  else if r.name == "IndexOperator" then m == some "IndexOperator.out_structure"
+  else m == some "AbstractLinearOperator.out_structure"
+
+end Furax
